@@ -16,7 +16,7 @@ import time
 
 VERIF = os.path.dirname(os.path.dirname(os.path.abspath(__file__)))
 REPO = os.environ.get("VCHECK_REPO", "/repo")
-WORK = os.path.join(VERIF, "work")
+WORK = os.environ.get("VCHECK_WORK") or os.path.join(VERIF, "work")   # VCHECK_WORK: separate cache/target dir for parallel self-test workers
 DRIVER = os.path.join(VERIF, "factgen", "target", "release", "factgen")
 
 PKGS = {"lib": "adf_bdd", "bin": "adf-bdd-bin", "server": "adf-bdd-server"}
